@@ -360,14 +360,32 @@ pub fn exhaustive_cases(len: usize) -> Vec<SCase> {
     out
 }
 
-pub const RULE: &str = "the REAL BlockingMap / TaskBlockingQueue / TaskBlockingQueueSender / BlockingHandle over two mock senders (inner = handed to the source Redis, keeps the CounterTask alive until a completer thread drops it; retry = re-dispatched), driven by real OS threads under a deterministic cooperative scheduler: 1..3 sender threads (1..3 commands each, hint computed like RedisScanMigratingTask::send, Retry recomputed up to 3 times), 1..2 controllers (start_blocking, poll blocking_done, BARRIER-UP, hold, BARRIER-DOWN, drop the handle) and a completer; control changes hands only at the scheduling points compiled into undermoon by hook H3 (before every shared-memory access of proxy/blocking.rs) and at harness points; the schedule is a generated byte vector (then round robin); [exhaustive] every schedule prefix of length 9 over 4 participants for 2 senders x 1 command and 1 controller; oracle over the logically time-stamped event log: no command handed to Redis while a barrier is up, every command ends in exactly one of {handed to Redis once, re-dispatched once, given up}, at quiescence not blocking and no running command; non-trivial = a controller step executed while a sender was between its counter increment/state read/enqueue/re-check; distinct = hash of the case";
+/// the same for 1 sender (1 command) and 2 controllers (two migrations blocking the same backend):
+/// start/stop of blocking race with each other, not only with senders
+pub fn exhaustive_cases_two_controllers(len: usize) -> Vec<SCase> {
+    let mut out = vec![];
+    let n = 4usize; // sender, controller, controller, completer
+    let total = n.pow(len as u32);
+    for code in 0..total {
+        let mut c = code;
+        let mut schedule = vec![];
+        for _ in 0..len {
+            schedule.push(((c % n) * 64 + 1) as u8);
+            c /= n;
+        }
+        out.push(SCase { senders: vec![vec![1]], controllers: 2, hold_points: 0, schedule });
+    }
+    out
+}
+
+pub const RULE: &str = "the REAL BlockingMap / TaskBlockingQueue / TaskBlockingQueueSender / BlockingHandle over two mock senders (inner = handed to the source Redis, keeps the CounterTask alive until a completer thread drops it; retry = re-dispatched), driven by real OS threads under a deterministic cooperative scheduler: 1..3 sender threads (1..3 commands each, hint computed like RedisScanMigratingTask::send, Retry recomputed up to 3 times), 1..2 controllers (start_blocking, poll blocking_done, BARRIER-UP, hold, BARRIER-DOWN, drop the handle) and a completer; control changes hands only at the scheduling points compiled into undermoon by hook H3 (before every shared-memory access of proxy/blocking.rs and between the load and the compare-exchange of common/biatomic.rs) and at harness points; the schedule is a generated byte vector (then round robin); [exhaustive] every schedule prefix of length 9 over 4 participants for 2 senders x 1 command and 1 controller [exhaustive] and for 1 sender and 2 controllers [exhaustive-2ctrl]; oracle over the logically time-stamped event log: no command handed to Redis while a barrier is up, every command ends in exactly one of {handed to Redis once, re-dispatched once, given up}, at quiescence not blocking and no running command; non-trivial = a controller step executed while a sender was between its counter increment/state read/enqueue/re-check; distinct = hash of the case";
 
 pub fn run(ctx: &Ctx, findings: &Findings) -> PropReport {
     let mut subs = vec![];
     CASE_THREADS.store(false, std::sync::atomic::Ordering::Relaxed);
     if let Some(path) = &ctx.replay {
         let v: serde_json::Value = serde_json::from_str(&std::fs::read_to_string(path).expect("replay file")).expect("json");
-        for name in ["schedules", "exhaustive"] {
+        for name in ["schedules", "exhaustive", "exhaustive-2ctrl"] {
             if let Some(r) = replay_case::<SCase>(ctx, findings, name, &v, &check) {
                 subs.push(r);
             }
@@ -376,6 +394,7 @@ pub fn run(ctx: &Ctx, findings: &Findings) -> PropReport {
         subs.push(drive(ctx, findings, "schedules", RULE, ctx.cases(12000, 400000), strategy, &check));
         let len = ctx.tier.pick(7, 9);
         subs.push(drive_enum(ctx, findings, "exhaustive", RULE, exhaustive_cases(len), true, &check));
+        subs.push(drive_enum(ctx, findings, "exhaustive-2ctrl", RULE, exhaustive_cases_two_controllers(ctx.tier.pick(6, 9)), true, &check));
     }
     PropReport {
         level: "fault_enumeration",
